@@ -68,11 +68,18 @@ theorem queries_total_unpruned (ops : List Op)
     (hu : ∀ k, k ≤ ops.length → Unpruned (run .none (ops.take k)).1) : MInv (run .none ops).1 :=
   inv_structure ops .none trivial hu
 
-/-- **`GetSlot` and `InSubtree` refine the specification (admissible histories).** For every history inside the
-domain every `GetSlot(root)` answer is the first (lowest) slot at which the root was inserted, or "unknown", and every
+/-- **The navigation queries refine the specification (admissible histories).** For every history inside the
+domain: every `GetSlot(root)` answer is the first (lowest) slot at which the root was inserted, or "unknown"; every
 `InSubtree(anchor, root)` answer is block-tree descent in the inserted tree, or "unknown" when one of the roots was
-never inserted — exactly the answers of the direct walks in `Spec.lean` (together with the other `Refined`
-operations). -/
+never inserted; every `ClosestToSlot(root, slot)` answer is the node itself or the greatest earlier slot with a node
+(linear scan), an error for unknown roots and slots before the first one; every `CanonicalChain(anchor, slot)`
+answer is the list of transition ancestors from the GHOST head back to the anchor, inclusive (`canonicalChain_eq_walk`)
+; every `CanonAtSlot(anchor, slot, withBlock)` answer is the node of the wanted kind at that slot on the canonical
+chain (`canonAtSlot_eq_walk`); and every `Search` with a parent-root and/or slot filter from the first node of a root
+returns the block nodes in the anchor's subtree that match, split into canonical (ancestors-or-self of the head)
+and non-canonical (`search_eq_filter`; the clause `IsSearch op → y = any ∨ x = y` of `AnswersAgree`: searches without
+options and from non-first anchors are unconstrained by the specification) — exactly the answers of the direct
+walks in `Spec.lean` (`Refined` lists the operations covered). -/
 theorem getSlot_inSubtree_refine_partial (ops : List Op) (ha : Admissible .none ops) :
     AnswersAgree ops (run .none ops).2 (Spec.run none ops).2 :=
   (refines_run ops .none none trivial trivial ha).1
@@ -82,7 +89,9 @@ def histQ : List Op := [
   .init 4 (rt 1) 0 0 ⟨0, rt 1⟩ ⟨0, rt 1⟩ .absent [32, 32],
   .block (rt 1) (rt 2) 1 0 0, .block (rt 1) (rt 3) 3 0 0, .block (rt 2) (rt 4) 5 0 0,
   .inSub (rt 2) (rt 3), .inSub (rt 1) (rt 4), .inSub (rt 2) (rt 4), .inSub (rt 9) (rt 9), .getSlot (rt 4),
-  .getSlot (rt 9)]
+  .getSlot (rt 9), .att 0 (rt 3) 3, .chain (rt 1) 0, .chain (rt 1) 2, .chain (rt 9) 0, .closest (rt 1) 7,
+  .closest (rt 2) 0, .closest (rt 9) 3, .canonAt (rt 1) 3 true, .canonAt (rt 1) 2 false, .canonAt (rt 1) 2 true,
+  .search ⟨0, rt 1⟩ (some (rt 1)) none, .search ⟨1, rt 2⟩ none (some 5)]
 
 example : Admissible .none histQ := admissibleB_sound histQ .none (by decide +kernel)
 example : (run .none histQ).2 = (Spec.run none histQ).2 := by decide +kernel
